@@ -106,6 +106,9 @@ def build(env, shape, tag='d'):
         else:
             d = dt.FloatRange(**kw)
         return Spec(k, dt=d, lo=lo, hi=hi, rel=rel, abs=ares)
+    if k == 'int' and 'fixed' in shape:
+        lo, hi = shape['fixed']
+        return Spec(k, dt=dt.IntRange(lo, hi), lo=lo, hi=hi, big=shape.get('big', False))
     if k == 'int':
         lo = env.int(tag + '.lo', -UNLIMITED, UNLIMITED)
         hi = env.int(tag + '.hi', -UNLIMITED, UNLIMITED)
@@ -162,6 +165,10 @@ def build(env, shape, tag='d'):
     if k == 'tuple':
         subs = [build(env, s, f'{tag}.{i}') for i, s in enumerate(shape['of'])]
         return Spec(k, dt=dt.TupleOf(*[s.dt for s in subs]), subs=subs)
+    if k == 'limits':
+        # frappy's own tuple of (min, max) with min <= max, used for <parameter>_limits
+        sub = build(env, {'k': 'double'}, tag + '.m')
+        return Spec('tuple', dt=dt.LimitsType(sub.dt), subs=[sub, sub], limits=True)
     if k == 'struct':
         subs = {n: build(env, s, f'{tag}.{n}') for n, s in shape['of'].items()}
         opt = shape.get('optional')
